@@ -65,7 +65,7 @@ def gen_obj(rng, torch, torchtt):
     return (x + x) * 2.0, kind
 
 def core_bytes(c):
-    return c.detach().cpu().resolve_conj().contiguous().numpy().tobytes()
+    return c.detach().cpu().resolve_conj().resolve_neg().contiguous().numpy().tobytes()
 
 def run(tier, seed, replay=None):
     import torch, torchtt
@@ -80,6 +80,9 @@ def run(tier, seed, replay=None):
             x, kind = gen_obj(rng, torch, torchtt)
             if i in (3, 7, 11):                 # engineered: the conjugate of an order-1 complex tensor / operator (full() is a lazily conjugated view of the single core)
                 x = history.rand_tt(random.Random(1234 + i), [torch.complex128, torch.complex64, torch.complex128][(i - 3) // 4], ttm=i == 7, d=1).conj(); kind = "conjugated"
+            if i in (5, 13, 17):                # engineered: real cores that carry torch's lazy NEGATIVE bit (the imaginary part of a conjugated view), order 1 and 2
+                z_ = history.rand_tt(random.Random(4321 + i), torch.complex128, ttm=i == 13, d=1 if i != 17 else 2).conj()
+                x = torchtt.TT([c.imag for c in z_.cores]); kind = "negative-bit views"
             dist[kind] = dist.get(kind, 0) + 1
             desc = {"kind": kind, "ttm": bool(x.is_ttm), "N": [int(v) for v in x.N], "R": [int(v) for v in x.R], "dtype": str(x.cores[0].dtype),
                     "contiguous": [bool(c.is_contiguous()) for c in x.cores], "R_types": sorted(set(type(r).__name__ for r in x.R))}
@@ -115,15 +118,15 @@ def run(tier, seed, replay=None):
                     z = mk()
                 except Exception as ex:
                     V.fail("%s raises %s [%s]" % (name, type(ex).__name__, kind), dict(desc, exc=str(ex)[:200])); continue
-                ref = ttgen.ref_full([c.detach().resolve_conj().numpy() for c in x.cores])
+                ref = ttgen.ref_full([c.detach().resolve_conj().resolve_neg().numpy() for c in x.cores])
                 if name == "numpy":
                     got = np.asarray(z)
                     sp_ = x.cores[0].dtype in (torch.float32, torch.complex64); big_ = float(np.abs(ref).max()) if ref.size else 0.0
                     okv = got.shape == ref.shape and np.allclose(got, ref, rtol=1e-5 if sp_ else 1e-12, atol=(1e-5 if sp_ else 1e-12) * max(1.0, big_))     # (an entry that is the difference of large terms carries the round-off of the large ones)
                 else:
-                    zc = [c.detach().resolve_conj().numpy() for c in z.cores]
+                    zc = [c.detach().resolve_conj().resolve_neg().numpy() for c in z.cores]
                     okv = (len(zc) == len(x.cores) and all(a.shape == tuple(b.shape) for a, b in zip(zc, x.cores))
-                           and all(np.array_equal(a, b.detach().resolve_conj().numpy().astype(a.dtype)) for a, b in zip(zc, x.cores))
+                           and all(np.array_equal(a, b.detach().resolve_conj().resolve_neg().numpy().astype(a.dtype)) for a, b in zip(zc, x.cores))
                            and not history.wf_failures(z) and [int(v) for v in z.R] == [int(v) for v in x.R]
                            and [int(v) for v in z.N] == [int(v) for v in x.N] and history.Mof(z) == history.Mof(x) and list(z.shape) == list(x.shape) and bool(z.is_ttm) == bool(x.is_ttm))
                     if name == "to" and str(z.cores[0].dtype) != ("torch.complex128" if x.cores[0].dtype.is_complex else "torch.float64"): okv = False
